@@ -138,8 +138,208 @@ def eval_ids(item):
     try:
         B = Gr.build(G)
         root = G["root"]
-        if is_task(G, root) and not Gr.has_cycle(G):
+        submitted = is_task(G, root) and not Gr.has_cycle(G)
+        if submitted:
             Gr.seal_root(G, B)
-        return {"id": Gr.ident(B.objs[root]), "raw": Gr.raw_ident(B.objs[root]), "sig": sig_digest(G), "sigraw": hashlib.sha256(repr(R.signature(G, None, full=False)).encode()).hexdigest()[:20]}
+        return {"id": Gr.ident(B.objs[root]), "raw": Gr.raw_ident(B.objs[root]),
+                "sig": hashlib.sha256(repr(R.signature(G, None, init=submitted)).encode()).hexdigest()[:20], "sigraw": hashlib.sha256(repr(R.signature(G, None, full=False)).encode()).hexdigest()[:20]}
     except Exception as e:  # noqa
         return {"error": f"{type(e).__name__}: {e}", "tb": traceback.format_exc()[-1200:]}
+
+
+# ---------------------------------------------------------------------------------------------- C02: neutral edits
+def _alt(kind, cur):
+    from .genspace import ALPHA
+    for a in ALPHA[kind]:
+        if not (a == cur and type(a) is type(cur)):
+            return a
+    raise KeyError(kind)
+
+
+def only_via(G, l):
+    """Nodes that are *parameters below* l: reachable from l through arguments only, and not reachable from the root
+    without passing through l (l included).  Pre-tasks attached below a meta configuration are not followed: whether
+    they belong to the signature is not something the documentation decides (DESIGN.md, C02)."""
+    root = G["root"]
+
+    def walk(start, stop=None, args_only=False):
+        seen, stack = set(), [start]
+        while stack:
+            x = stack.pop()
+            if x in seen:
+                continue
+            seen.add(x)
+            if x == stop:
+                continue
+            m = G["nodes"][x]
+            nxt = [m["output_of"]] if "output_of" in m else [r for v in m["args"].values() for r in R.refs_in(v)]
+            if not args_only:
+                nxt += m.get("pre", []) + m.get("init", [])
+            stack.extend(nxt)
+        return seen
+
+    below = walk(l, args_only=True)
+    without = walk(root, stop=l)
+    return (below - without) | {l}
+
+
+def neutral_edits(G):
+    """Yields (kind, edited description, object-level spec or None)."""
+    import copy
+    from .genspace import add_default_node
+    root = G["root"]
+    for l, n in G["nodes"].items():
+        if "output_of" in n:
+            continue
+        cls = SCHEMA[n["cls"]]
+        for f in cls["fields"]:
+            name, kind = f["name"], f["kind"]
+            if f["generated"] or f["constant"]:
+                continue
+            if name not in n["args"]:
+                if f["default"] is not None:
+                    H = copy.deepcopy(G)
+                    H["nodes"][l]["args"][name] = copy.deepcopy(f["default"])
+                    yield (f"explicit-default:{kind.split(':')[0]}", H, None)
+                elif not f["required"]:
+                    H = copy.deepcopy(G)
+                    H["nodes"][l]["args"][name] = None
+                    yield ("explicit-none", H, None)
+            if f["ignored"] and kind in ("int", "str", "path"):
+                H = copy.deepcopy(G)
+                cur = n["args"].get(name, f["default"])
+                H["nodes"][l]["args"][name] = _alt(kind, cur)
+                yield (f"ignored-value:{name}", H, None)
+            if f["ignored"] and kind == "opt:cfg:leaf" and n["args"].get(name) is None:
+                H = copy.deepcopy(G)
+                H["_n"] = 500
+                c = add_default_node(H, "leaf")
+                H["nodes"][l]["args"][name] = {"ref": c}
+                H.pop("_n")
+                yield ("ignored-config-set", H, None)
+            # a meta=True element added to a list / dict of configurations
+            if kind == "list:cfg:leaf" or kind == "dict:cfg:leaf":
+                H = copy.deepcopy(G)
+                H["_n"] = 500
+                c = add_default_node(H, "leaf")
+                H["nodes"][c]["meta"] = True
+                H["nodes"][c]["args"]["i"] = 2
+                H.pop("_n")
+                if kind.startswith("list"):
+                    cur = list(n["args"].get(name) or [])
+                    for pos in {0, len(cur)}:
+                        H2 = copy.deepcopy(H)
+                        H2["nodes"][l]["args"][name] = cur[:pos] + [{"ref": c}] + cur[pos:]
+                        yield ("meta-element-added:list", H2, None)
+                else:
+                    cur = dict((n["args"].get(name) or {"dict": {}})["dict"])
+                    cur["m"] = {"ref": c}
+                    H["nodes"][l]["args"][name] = {"dict": cur}
+                    yield ("meta-element-added:dict", H, None)
+        # tags
+        H = copy.deepcopy(G)
+        H["nodes"][l]["tags"] = {"t": "v"}
+        yield ("tag", H, None)
+        # class twins (class extended with defaulted / Meta / generated parameters)
+        for twin in ("leaf_v2", "box_v2"):
+            if SCHEMA[twin]["twin_of"] == n["cls"]:
+                H = copy.deepcopy(G)
+                H["nodes"][l]["cls"] = twin
+                yield (f"class-extension:{twin}", H, None)
+        # anything below a meta=True sub-configuration
+        if n.get("meta") is True and l != root:
+            for x in sorted(only_via(G, l)):
+                m = G["nodes"][x]
+                if "output_of" in m:
+                    continue
+                for f in SCHEMA[m["cls"]]["fields"]:
+                    if f["kind"] in ("int", "str", "float", "list:int", "dict:int") and not f["constant"] and not f["generated"]:
+                        H = copy.deepcopy(G)
+                        cur = m["args"].get(f["name"], f["default"])
+                        H["nodes"][x]["args"][f["name"]] = _alt(f["kind"], cur)
+                        yield ("below-meta", H, None)
+        # object-level edits on tasks
+        if SCHEMA[n["cls"]].get("task"):
+            yield ("token-dependency", G, {"label": l, "what": "token"})
+            yield ("explicit-dependency", G, {"label": l, "what": "job"})
+    # all twins at once
+    H = copy.deepcopy(G)
+    changed = False
+    for l, n in H["nodes"].items():
+        if "output_of" not in n and n["cls"] in ("leaf", "box"):
+            n["cls"] += "_v2"
+            changed = True
+    if changed:
+        yield ("class-extension:all", H, None)
+    if is_task(G, root) and not Gr.has_cycle(G):
+        yield ("launcher", G, {"submit": "launcher"})
+        yield ("run-mode", G, {"submit": "generate"})
+        yield ("workspace", G, {"submit": "workspace"})
+
+
+def _ids_of(G, spec=None):
+    """Identifiers of all nodes of G after building it (root sealed when submittable); spec = object-level edit."""
+    from experimaestro.tokens import ProcessCounterToken
+    extra = None
+    if spec and "label" in spec:
+        def extra(l, obj, B):
+            if l == spec["label"]:
+                if spec["what"] == "token":
+                    obj.add_dependencies(ProcessCounterToken(2).dependency(1))
+                else:
+                    import universe.g as U
+                    with Gr.quiet():
+                        other = U.Job(x=77)
+                        other.submit()
+                    obj.add_dependencies(other.__xpm__.dependency())
+    B = Gr.build(G, extra=extra)
+    root = G["root"]
+    if is_task(G, root) and not Gr.has_cycle(G):
+        kw = {}
+        if spec and spec.get("submit") == "launcher":
+            from experimaestro.launchers.direct import DirectLauncher
+            from experimaestro.connectors.local import LocalConnector
+            l = DirectLauncher(LocalConnector.instance())
+            l.setenv("SOMETHING", "1")
+            kw["launcher"] = l
+        elif spec and spec.get("submit") == "generate":
+            from experimaestro.scheduler.workspace import RunMode
+            kw["run_mode"] = RunMode.GENERATE_ONLY
+        elif spec and spec.get("submit") == "workspace":
+            from experimaestro.scheduler.workspace import Workspace, RunMode
+            from experimaestro.settings import WorkspaceSettings, get_settings
+            from pathlib import Path
+            kw["workspace"] = Workspace(get_settings(), WorkspaceSettings(id=None, path=Path(Gr._STATE["dir"]) / "otherws"), run_mode=RunMode.DRY_RUN)
+        Gr.submit(G, B, root, **kw)
+    return {l: Gr.ident(B.objs[l]) for l in G["nodes"] if l in B.objs}
+
+
+def eval_c02(item):
+    G = item["G"]
+    out = {"edits": 0, "kinds": {}, "mismatches": [], "sig": sig_digest(G)}
+    try:
+        base = _ids_of(G)
+    except Exception as e:  # noqa
+        out["mismatches"].append({"kind": "base-raises", "error": f"{type(e).__name__}: {e}", "tb": traceback.format_exc()[-1200:]})
+        return out
+    sig0 = R.signature(G)
+    root = G["root"]
+    for kind, H, spec in neutral_edits(G):
+        out["edits"] += 1
+        out["kinds"][kind] = out["kinds"].get(kind, 0) + 1
+        if R.signature(H) != sig0:
+            # the oracle itself says the edit is not neutral: that is a checker bug, never a verdict
+            out["mismatches"].append({"kind": "ORACLE", "edit": kind, "H": H})
+            continue
+        try:
+            ids = _ids_of(H, spec)
+        except Exception as e:  # noqa
+            out["mismatches"].append({"kind": "raises", "edit": kind, "H": H, "spec": spec, "error": f"{type(e).__name__}: {e}", "tb": traceback.format_exc()[-1200:]})
+            continue
+        if ids[root] != base[root]:
+            out["mismatches"].append({"kind": "changed", "edit": kind, "H": H, "spec": spec, "before": base[root], "after": ids[root]})
+    return out
+
+
+def schema_problems(_):
+    return Gr._STATE.get("schema_problems", [])
